@@ -173,13 +173,15 @@ class DensityMatrix(StateRepresentationBase):
             if measurement_determinism == "probabilistic":
                 outcome = numpy.random.choice([0, 1], p=probs / np.sum(probs))
             elif measurement_determinism == 1:
-                if probs[1] > 0:
+                # outcome 1 unless it is impossible (up to floating-point error)
+                if not np.isclose(probs[1], 0.0):
                     outcome = 1
                 else:
                     outcome = 0
 
             elif measurement_determinism == 0:
-                if probs[1] < 1:
+                # outcome 0 unless it is impossible (up to floating-point error)
+                if not np.isclose(probs[0], 0.0):
                     outcome = 0
                 else:
                     outcome = 1
